@@ -33,9 +33,27 @@ func c16Gen(r *Rand, tier string, scale int, emit func(Fields)) {
 	}
 	for n := 0; n < scale; n++ {
 		o := dspGenOpt{panics: true, parks: true, shorts: true, track: n%4 == 3}
+		if n%5 == 4 {
+			// the connection ENDS (server EOF / Close() from a free goroutine) while background
+			// handlers are parked for ever: DISCONNECTED must still be delivered, Close must return
+			o = dspGenOpt{panics: true, parks: true, shorts: true, ends: true}
+		}
 		c := dspGenCase(r, o, n < 3)
-		if n%2 == 0 {
-			c.recmode = 0 // the default LogPanic in at least every other session
+		switch {
+		case n%2 == 0:
+			c.recmode = 0 // the default LogPanic in every other session
+		case n%4 == 1:
+			c.recmode = 2 // the hook installed after part of the registrations
+		}
+		if n%5 == 4 {
+			c.endmode = 1 + r.Intn(2)
+			c.parkPct = 50
+			if c.dfg == 0 {
+				c.dfg = 1
+			}
+			if c.vbg[1] == 0 {
+				c.vbg[1] = 1
+			}
 		}
 		emit(c.encode())
 	}
